@@ -554,4 +554,5 @@ def run(tier, seed, replay):
         model_expr=model_expr, canon_model=canon_model, canon_impl=canon_impl, oracle=oracle, nontrivial=nontrivial,
         rule="(a) seeded random sequences of 1..8 Shape operations from random starting shapes compared with the model (a panic of the implementation in this overflow-checked build is a disagreement); (b) the mutation search (see search_rule). non-trivial = a sequence that hits 'does not fit' or has >= 3 operations; distinct by hash",
         extra=search, per_file=200,
+        ties=["C16"],
     )
